@@ -149,4 +149,55 @@ theorem litPart_spec (w : WordOracle) (window : Nat) (mb : Bytes) (h32 : mb.leng
     exact ⟨[], by simp, by omega, by rw [hb]; exact Emits.nil w window mb⟩
 
 
+/-- with the fuel `litPart` passes, the literal loop never stops for lack of fuel: one more unit of fuel does not
+change its result (so `none` always is a real panic site of the Rust loop, and the Rust `while` terminates) -/
+theorem litLoop_fuel_succ (he : Bool) (bt : Split) :
+    ∀ (fuel : Nat) (tmp : Pair) (sub counter mbLen : Nat) (acc : List IR),
+      tmp.len ≤ 2 ^ 31 → fuel ≥ tmp.len + (bt.types.length - counter) + 1 →
+      litLoop he bt (fuel + 1) tmp sub counter mbLen acc = litLoop he bt fuel tmp sub counter mbLen acc := by
+  intro fuel
+  induction fuel with
+  | zero => intro tmp sub counter mbLen acc _ h; omega
+  | succ f ih =>
+    intro tmp sub counter mbLen acc h31 hf
+    rw [litLoop, litLoop]
+    by_cases hgt : tmp.len > sub
+    · rw [if_pos hgt, if_pos hgt]
+      simp only
+      obtain ⟨lA, lB⟩ := tmp.splitAt_len sub
+      by_cases hmb : mbLen < (tmp.splitAt sub).1.len
+      · rw [if_pos hmb, if_pos hmb]
+      · rw [if_neg hmb, if_neg hmb]
+        by_cases hty : bt.types.length > counter + 1
+        · rw [if_pos hty, if_pos hty]
+          cases bt.lengths[counter + 1]? with
+          | none => rfl
+          | some l =>
+            cases bt.types[counter + 1]? with
+            | none => rfl
+            | some t =>
+              simp only
+              apply ih
+              · rw [lB]; omega
+              · rw [lB]
+                by_cases hs0 : sub = 0
+                · omega
+                · omega
+        · rw [if_neg hty, if_neg hty]
+          -- the next iteration exits at once: remaining length ≤ 2^31
+          have hle : ¬ ((tmp.splitAt sub).2.len > 2 ^ 31) := by rw [lB]; omega
+          have hf1 : f ≥ 1 := by omega
+          obtain ⟨g, rfl⟩ : ∃ g, f = g + 1 := ⟨f - 1, by omega⟩
+          rw [litLoop, litLoop, if_neg hle, if_neg hle]
+    · rw [if_neg hgt, if_neg hgt]
+
+theorem litLoop_fuel_enough (he : Bool) (bt : Split) (k fuel : Nat) (tmp : Pair) (sub counter mbLen : Nat) (acc : List IR)
+    (h31 : tmp.len ≤ 2 ^ 31) (hf : fuel ≥ tmp.len + (bt.types.length - counter) + 1) :
+    litLoop he bt (fuel + k) tmp sub counter mbLen acc = litLoop he bt fuel tmp sub counter mbLen acc := by
+  induction k with
+  | zero => rfl
+  | succ k ih =>
+    rw [← Nat.add_assoc, litLoop_fuel_succ he bt (fuel + k) tmp sub counter mbLen acc h31 (by omega), ih]
+
+
 end BV.Recoder
